@@ -541,7 +541,7 @@ def external(fr, dotted, args, kw, extra, n):
                 return T.is_intarr(x) or (x[0] in ('list', 'tuple') and all(T.is_int(e) for e in x[1])) or (x[0] == 'map' and T.is_int(x[2])) or \
                     (x[0] == 'arr' and x[1][0] == 'call' and x[1][1] in ('zeros', 'ones', 'empty') and dict(x[1][3]).get('dtype') == C('int'))
             if dt in (('builtin', 'bool'), C('bool')):
-                return T.is_boolarr(x)
+                return T.is_boolarr(x) or (x[0] in ('list', 'tuple') and all(T.isconst(e) and isinstance(e[1], bool) for e in x[1]))
             return False
         if name in ('array', 'asarray') and a0 is not None and (kw.get('dtype', NONE) != NONE or (len(args) > 1 and args[1] != NONE)) \
                 and not same_type(a0, kw.get('dtype', args[1] if len(args) > 1 else NONE)):
@@ -662,6 +662,11 @@ def external(fr, dotted, args, kw, extra, n):
             for x in items[1:]:
                 acc = fold(acc, x)
             return acc
+    if dotted in ('itertools.chain.from_iterable', 'itertools.chain') and args:
+        # chaining explicit sequences is their concatenation (iterated once, in order)
+        parts = list(args[0][1]) if dotted.endswith('from_iterable') and args[0][0] in ('list', 'tuple') else list(args) if dotted == 'itertools.chain' else None
+        if parts is not None and all(T.strip_nd(p)[0] in ('list', 'tuple') for p in parts):
+            return ('list', tuple(x for p in parts for x in T.strip_nd(p)[1]))
     if dotted in ('operator.and_', 'operator.or_') and len(args) == 2:
         return T.band(args) if dotted.endswith('and_') else T.bor(args)
     if dotted == 'itertools.product':
